@@ -53,12 +53,14 @@ class C08(Check):
         "E5": "operator tables: each entry maps to the MathML node of the same meaning and is listed under its real arity",
         "E8": "a conditional expression is exported as MathML piecewise with children (value-if-true, condition, value-otherwise) - the order "
               "<piece> value condition </piece> <otherwise> prescribed by MathML / libsbml",
+        "E12": "leaves and chains: math.e / pi / inf / nan map to their MathML constants (nothing else does), True / False to MathML true / false, numbers to "
+               "reals with their own value, and the links of a comparison chain are joined by one logical `and` (a single link stands alone)",
         "E7": "fresh tree per export: the function AST that is renamed in place (NodeTransformer.visit) for one component is parsed "
               "anew for that call; a memoised (functools.cache / lru_cache / module-level dict) parse would hand the already renamed tree to "
               "the next component that uses the same function with other arguments",
         "E6": "API existence: every method called on a libsbml object exists on the class its factory returns",
     }
-    floors = {"E11": 20, "E10": 1, "E9": 1, "E1": 8, "E2": 3, "E3": 10, "E4": 2, "E5": 20, "E6": 25, "E7": 2, "E8": 1}
+    floors = {"E11": 20, "E10": 1, "E9": 1, "E1": 8, "E2": 3, "E3": 10, "E4": 2, "E5": 20, "E6": 25, "E7": 2, "E8": 1, "E12": 3}
     decided = [
         "an expression construct the exporter cannot represent raises instead of producing a different / unreadable formula",
         "coefficient signs survive; ids are produced by one converter; libsbml is called with methods that exist",
@@ -80,6 +82,7 @@ class C08(Check):
         self.e5(mod)
         self.e6(mod)
         self.e7(mod)
+        self.e12(mod)
         fi = mod.func("_convert_ifexp")
         defs = {norm(a.targets[0]): norm(a.value) for a in walk_no_nested(fi) if isinstance(a, ast.Assign) and isinstance(a.targets[0], ast.Name)}
         kids = [norm(c.args[0]) for c in walk_no_nested(fi) if isinstance(c, ast.Call) and norm(c.func).endswith(".addChild")]
@@ -488,6 +491,107 @@ class C08(Check):
                         self.violated("E6", MOD, name, cons, c, f"libsbml.{cls} has no method `{c.func.attr}`: the export raises AttributeError as soon as this line runs",
                                       witness="any model with an initial assignment: sbml.write raises AttributeError")
         self.analysed["libsbml_method_calls_checked"] = n
+
+    def e12(self, mod) -> None:
+        """Leaves and chains, on path summaries: named constants, literal constants, and how the links of a comparison chain are joined."""
+        import re as _re
+
+        class I1(SymInterp):
+            loop_unroll = 1
+
+        # named constants
+        fa = mod.func("_convert_attribute")
+        want = {"e": ("AST_CONSTANT_E", None), "pi": ("AST_CONSTANT_PI", None), "inf": ("AST_REAL", ("np.inf", "math.inf", "float('inf')", "numpy.inf")),
+                "nan": ("AST_REAL", ("np.nan", "math.nan", "float('nan')", "numpy.nan"))}
+        probs = []
+        seen = set()
+        for st, _ in I1().run_function(fa, Sym()).returns:
+            true_lits = [m_.group(1) for c, v in st.conds if v for m_ in [_re.match(r"^node\.attr == '(\w+)'$", c)] if m_]
+            parent_ok = any(v and _re.match(r"^node\.value\.id in \(", c) for c, v in st.conds)
+            ret = next((e[1] for e in reversed(st.events) if e[0] == "return"), "")
+            kind = _re.match(r"^libsbml\.ASTNode\(libsbml\.(\w+)\)$", ret)
+            setv = [m_.group(1) for e in st.events if e[0] == "call" for m_ in [_re.match(r"^libsbml\.ASTNode\(libsbml\.\w+\)\.setValue\((.+)\)$", e[1])] if m_]
+            if len(true_lits) != 1 or not kind:
+                probs.append("a returning path is not selected by exactly one attribute name")
+                continue
+            lit = true_lits[0]
+            seen.add(lit)
+            if not parent_ok:
+                probs.append(f"`.{lit}` of an arbitrary object is exported as the mathematical constant")
+            if lit not in want:
+                continue
+            k_, payload = want[lit]
+            if kind.group(1) != k_ or (payload is None and setv) or (payload is not None and (len(setv) != 1 or setv[0] not in payload)):
+                probs.append(f"math.{lit} is exported as {kind.group(1)}" + (f" with value {setv[0]}" if setv else ""))
+        if probs:
+            self.violated("E12", MOD, fa.name, "named-constants", fa, sorted(set(probs))[0], witness="a rate law using math.pi re-imports with math.e in its place")
+        else:
+            self.holds("E12", MOD, fa.name, "named-constants", fa, f"{sorted(seen)} of math / numpy map to their MathML constants; anything else raises")
+        # literal constants
+        fc = mod.func("_convert_constant")
+        probs = []
+        for st, _ in I1().run_function(fc, Sym()).returns:
+            conds = dict(st.conds)
+            ret = next((e[1] for e in reversed(st.events) if e[0] == "return"), "")
+            setv = [m_.group(1) for e in st.events if e[0] == "call" for m_ in [_re.match(r"^libsbml\.ASTNode\(libsbml\.\w+\)\.setValue\((.+)\)$", e[1])] if m_]
+            is_bool = conds.get("isinstance(node.value, bool)")
+            if is_bool:
+                val = conds.get("node.value", conds.get("node.value is True"))
+                want_k = "AST_CONSTANT_TRUE" if val else "AST_CONSTANT_FALSE"
+                if val is None or ret != f"libsbml.ASTNode(libsbml.{want_k})":
+                    probs.append(f"the literal {val} is exported as `{ret}`")
+            elif is_bool is False:
+                if not (ret == "libsbml.ASTNode(libsbml.AST_REAL)" and setv == ["node.value"]):
+                    probs.append(f"a numeric literal is exported as `{ret}` with value {setv}")
+            else:
+                probs.append("a literal is exported without telling booleans from numbers (True would be written as 1.0, or 1 as true)")
+        if probs:
+            self.violated("E12", MOD, fc.name, "literals", fc, sorted(set(probs))[0], witness="`k if True else 0` / `2.0 * x` re-imports with another constant")
+        else:
+            self.holds("E12", MOD, fc.name, "literals", fc, "True / False -> MathML true / false, numbers -> real with their own value")
+        # comparison chains: one link alone, several joined by `and`
+        fcmp = mod.func("_convert_compare")
+        probs = []
+        n_and = 0
+        for st, _ in I1().run_function(fcmp, Sym()).returns:
+            ret = next((e[1] for e in reversed(st.events) if e[0] == "return"), "")
+            single = [v for c, v in st.conds if c in ("len(links) == 1",)] + [not v for c, v in st.conds if c in ("len(links) > 1", "len(links) != 1", "len(links) >= 2")]
+            if _re.match(r"^\w+\[0\]$", ret) or ret.startswith("ITEM(0, "):
+                if not single or not single[0]:
+                    probs.append("the first link alone is returned although the chain may have several links")
+            elif "AST_LOGICAL_AND" in ret:
+                adds = [e[1] for e in st.events if e[0] == "call" and ".addChild(" in e[1]]
+                if any(".addChild(ITEM(0, " in a for a in adds):
+                    n_and += 1  # one iteration of the joining loop adds that link (paths with zero iterations of it add nothing)
+                if any(".addChild(ITEM(0, " not in a for a in adds):
+                    probs.append(f"`{adds[0][:60]}` adds something other than the links to the `and` node")
+            elif ret:
+                probs.append(f"a chain is returned as `{ret[:50]}`")
+        # the k-th link relates comparator k-1 to comparator k (the first one node.left to comparator 0)
+        class I2(SymInterp):
+            loop_unroll = 2
+
+        ok_shift = False
+        bad_shift = None
+        for st, _ in I2().run_function(fcmp, Sym()).returns:
+            apps = [e[1] for e in st.events if e[0] == "call" and ".append(" in e[1] and "ITEM(" in e[1]]
+            if len(apps) < 2:
+                continue
+            a0 = apps[0].replace(" ", "")
+            a1 = apps[1].replace(" ", "")
+            if "ITEM(0,node.ops)" in a0 and "node.left" in a0 and "ITEM(0,node.comparators)" in a0 and "ITEM(1,node.ops)" in a1 \
+                    and a1.index("ITEM(0,node.comparators)") < a1.index("ITEM(1,node.comparators)") if ("ITEM(0,node.comparators)" in a1 and "ITEM(1,node.comparators)" in a1) else False:
+                if "node.left" not in a1:
+                    ok_shift = True
+                    continue
+            bad_shift = apps[1]
+        if bad_shift is not None or not ok_shift:
+            probs.append(f"the second link of a chain is built as `{(bad_shift or '?')[:90]}`, not from the previous comparator and the next one")
+        if probs or not n_and:
+            self.violated("E12", MOD, fcmp.name, "chain-joined-by-and", fcmp, sorted(set(probs))[0] if probs else "no path joins several links with a logical and",
+                          witness="`k if 0 < x < 2 else 0` is written as `k if 0 < x else 0`")
+        else:
+            self.holds("E12", MOD, fcmp.name, "chain-joined-by-and", fcmp, "one link is returned as it is, several are the children of one logical `and`")
 
     def e7(self, mod) -> None:
         conv = mod.func("_tree_to_sbml")
